@@ -7,7 +7,9 @@ import stat
 LEVEL = 'exploration'
 RULE = ('random trees mixing .py / .pyc / .pyo (protected by a sibling .py '
         'or orphaned), look-alikes (x.pyc.bak, .pyc, pyc, X.PYC, x.pyx, a '
-        '*directory* named x.py beside x.pyc), __pycache__ directories with '
+        '*directory* named x.py beside x.pyc; bytecode beside a source whose '
+        'name differs in letter case / Unicode normalisation / a blank '
+        'only), __pycache__ directories with '
         'orphans, --ignore_dir and non-identifier / .git / node_modules '
         'directories, symlinked directories (inside and outside the search '
         'path; also links *named* __pycache__ / CVS / .git that point at a '
@@ -26,7 +28,7 @@ ASSUMPTIONS = ['model computed by an independent walk of the real tree',
                'symbolic link may or may not be deleted']
 FLOORS = {'runs': 400, 'orphans_must': 600, 'protected_checked': 2000,
           'keep_runs': 100, 'audit_events': 500, 'lookalikes_checked': 800,
-          'symlinked_cache_dirs': 40}
+          'symlinked_cache_dirs': 40, 'orphans_beside_renamed_source': 30}
 BATCH_TIMEOUT = 300
 
 IGN_DEFAULT = ['.git', '.svn', 'CVS', '{arch}', '.arch-ids', '_darcs']
@@ -52,6 +54,7 @@ LOOKALIKES = ['x.pyc.bak', '.pyc', 'pyc', 'X.PYC', 'mod.pyx', 'pycache.txt',
 def build_tree(rng, root, prefix):
     """Create the tree on disk; returns list of top-level dir names."""
     tops = []
+    casefold = [0]
 
     def fill(d, depth):
         os.makedirs(d, exist_ok=True)
@@ -73,6 +76,20 @@ def build_tree(rng, root, prefix):
                 names += [stem + '.py']
             else:             # both kinds of bytecode, no source
                 names += [stem + '.pyc', stem + '.pyo']
+        if rng.random() < 0.15:
+            # bytecode whose source exists under a name that differs in
+            # letter case or in Unicode normalisation only (a module that
+            # was renamed): on this file system these are different names,
+            # so the bytecode is an orphan
+            stem = rng.choice(['mod', 'util', 'tests', 'report'])
+            ext = rng.choice(['.pyc', '.pyo'])
+            names += rng.choice([
+                [stem + '.py', stem.capitalize() + ext],
+                [stem.upper() + '.py', stem + ext],
+                ['caf\u00e9.py', 'cafe\u0301' + ext],
+                [stem + '.py', stem + ' ' + ext],
+                [stem + '.PY', stem + ext]])
+            casefold[0] += 1
         for i in range(rng.randint(0, 2)):
             names.append(rng.choice(LOOKALIKES))
         for n in set(names):
@@ -315,6 +332,16 @@ def run_case(case):
                 V('orphan-not-deleted', 'bytecode-orphan-kept',
                   missing=rel(missing)[:6])
             C('orphans_must', len(must))
+            import unicodedata
+
+            def fold(n):
+                return unicodedata.normalize('NFC', n).lower().replace(
+                    ' ', '')
+            C('orphans_beside_renamed_source', sum(
+                1 for x in must
+                if any(fold(y) == fold(os.path.basename(x)[:-1])
+                       for y in os.listdir(os.path.dirname(x))
+                       if os.path.isdir(os.path.dirname(x)))))
         # audit records
         aud = [e for e in events if e['k'] == 'audit']
         C('audit_events', len(aud))
